@@ -162,6 +162,8 @@ func (p *Parser) evaluateLine(l string) error {
 	}
 	// first we get the directive
 	dir, opts, _ := strings.Cut(l, " ")
+	// more than one blank may separate the directive from its arguments (SecMarker  X is the marker X)
+	opts = strings.TrimLeft(opts, " \t")
 
 	p.options.WAF.Logger.Debug().Str("line", l).Msg("Parsing directive")
 	directive := strings.ToLower(dir)
